@@ -26,6 +26,8 @@ CHECKS = {
          "Every recorded fan is checked against the reference, the permissiveness lattice and the exact length-error condition.", "6 C10"),
  "C11": (MC, "Generator.tla at narrow counter width W=6 (MCGenLimit: every history across MAX, 2^W-4, 2^W) + TLC trace validation at W=32 from injected states next to the three real boundaries (TraceGen.tla)",
          "Small-scope exhaustive for the counter logic; real-width traces for the boundaries themselves.", "6 C11"),
+ "C12": (MC, "Stream.tla read-loop state machine: TLC model check of every reader script in small scope incl. liveness (MCStream) + TLC trace validation of every read call made by hash_stream against scripted readers and of hash_file (TraceStream.tla; multi-MiB content through the closed form GenUpdatePeriodic, itself model checked against byte-by-byte stepping)",
+         "Every logged read call and the returned value must be a behaviour of Stream.tla; small scope exhaustive, real buffer sizes by traces.", "6 C12"),
  "C13": (MC, "EasyCompare semantics (parse left, then right, side tag) in TraceHash.tla judged by TLC on recorded compare / compare_with events over all outcome combinations",
          "Relational check against both parse results and the specification's distance.", "6 C13"),
  "C14": (MC, "HashCodec.tla buffer gate (FormSize / FormRepr) judged by TLC on recorded store events for every buffer length 0..N+64 (TraceHash.tla)",
